@@ -11,7 +11,7 @@
      wx(a)        the device refused a write (unplugged): nothing transmitted
      ack          radio: the comm thread looks at the result of its last transfer
      og(a)        radio: the comm thread took request a (0 = nothing) from out_queue
-     rd           usb: the comm thread starts a read
+     rd / rr      usb: the comm thread starts a read / the read comes back (timeout or data)
      lerr         link error reported by the comm thread;  lerru: reported to the caller of send_packet
      unplug, jam, down, rx, end                          environment / bookkeeping
    hd = 1 if the object holds a device handle after the call, q = content of out_queue.
@@ -88,6 +88,7 @@ Explained ==
       [] Ev.e = "og"     -> Conform(D!TGet(Ev.a))
       [] Ev.e = "lerr"   -> IF kind = "usb" THEN Conform(D!TErr) ELSE Skip   \* radio: part of TAck
       [] Ev.e = "rd"     -> IF kind = "usb" THEN Conform(D!TRead) ELSE Skip
+      [] Ev.e = "rr"     -> IF kind = "usb" THEN Conform(D!TRet) ELSE Skip
       [] Ev.e = "unplug" -> Conform(D!Unplug)
       [] Ev.e = "jam"    -> Conform(D!Jam)
       [] OTHER -> Skip
